@@ -44,6 +44,7 @@ type Frame struct {
 	curRec    *loopRec // innermost invariant-cut loop around the block being executed
 	rhsToLhs  map[ast.Expr]string
 	doneChans map[string]string // channel term returned by ctx.Done() -> ctx term
+	namedRes  map[string]*Addr  // memory cells of named results (a contract's bare name means the result, not a shadowing local)
 }
 
 func (e *Eng) typeID(t types.Type) int {
@@ -745,6 +746,16 @@ func (fr *Frame) execInstr(st *State, in ssa.Instruction) {
 			if identRe.MatchString(x.Comment) && x.Comment != "complit" && x.Comment != "varargs" {
 				if _, have := st.vars[x.Comment]; !have {
 					fr.setVar(st, "&"+x.Comment, a)
+				}
+				if res := fr.fn.Signature.Results(); res != nil {
+					for i := 0; i < res.Len(); i++ {
+						if res.At(i).Name() == x.Comment && res.At(i).Pos() == x.Pos() {
+							if fr.namedRes == nil {
+								fr.namedRes = map[string]*Addr{}
+							}
+							fr.namedRes[x.Comment] = a
+						}
+					}
 				}
 			}
 		}
